@@ -110,18 +110,19 @@ Section CtlValidity.
 
   Lemma eval_rel cm s : srel s (fst (eval c cm s)).
   Proof.
-    destruct cm as [a|cd nc a|cd]; cbn.
+    destruct cm as [a|cd nc a|cd|cd a]; cbn.
     - apply do_act_rel.
     - destruct (eval_cond c cd s); cbn; [|apply vrel_refl].
       destruct (is_last_cond cd); cbn; [|apply do_act_rel].
       unfold srel. cbn. pose proof (do_act_rel a (with_frozen s false)) as H. unfold srel in H. cbn in H. exact H.
     - apply vrel_refl.
+    - destruct (frozen mx s); cbn; [apply vrel_refl|]. destruct (eval_cond c cd s); cbn; [apply do_act_rel|apply vrel_refl].
   Qed.
 
   Lemma do_lasts_rel : forall cs s, srel s (do_lasts c cs s).
   Proof.
     induction cs as [|cm cs IH]; intros s; [apply vrel_refl|].
-    destruct cm as [a|cd nc a|cd]; cbn [do_lasts]; try apply IH.
+    destruct cm as [a|cd nc a|cd|cd a]; cbn [do_lasts]; try apply IH.
     destruct cd; try apply IH. eapply vrel_trans; [apply (eval_rel (CWhen IsLast nc a) s)|apply IH].
   Qed.
 
